@@ -223,12 +223,13 @@ def loglik_def(static, u, w):
 
 
 def agree_tol(static, S, L):
-    """'up to rounding' for incremental = definition: 1e-8 relative plus the forward error of a table that is
-    maintained by additions and subtractions: 64 N eps sum_{d,k} w[d,k] max_history |psi[d+1,k]|"""
+    """'up to rounding' for incremental = definition: 1e-8 relative plus the forward error of a table that is maintained
+    by additions and subtractions (N node updates per sweep, D multiply-subtract steps each, errors relative to the largest
+    value the entry ever held): 16 D N (it + 2) eps sum_{d,k} w[d,k] max_history |psi[d+1,k]|"""
     w, pm = S["after"]["w"], S["psimax"]
     cond = math.fsum(abs(w[d][k]) * pm[d + 1][k] for d in range(len(w)) for k in range(len(w[d]))
                      if math.isfinite(w[d][k]))
-    return 1e-8 * max(1.0, abs(L)) + 64 * static["N"] * 2.3e-16 * cond
+    return 1e-8 * max(1.0, abs(L)) + 16 * static["D"] * static["N"] * (S["it"] + 2) * 2.3e-16 * cond
 
 
 def close(a, b, scale, rtol=1e-9):
@@ -753,6 +754,19 @@ def check_case(ctx, drv, case, full=True):
                         continue
                     rtol = 1e-9
                     d = compare_state(ctx, case, f"sweep {S['it']}", ms, S["after"], psimax=S["psimax"], rtol=rtol)
+                    if d is not None and not excused:
+                        # is the step itself ill-conditioned?  re-run the model with psi moved by 4 ulps of the largest
+                        # value each entry ever held and widen the tolerance by 64 times the observed change
+                        sens = model_sensitivity(drv, ln, S, ms)
+                        if sens is not None and sens > 0:
+                            rtol = 1e-9 + 64 * sens
+                            if rtol < 1e-4:
+                                d = compare_state(ctx, case, f"sweep {S['it']}", ms, S["after"], psimax=S["psimax"], rtol=rtol)
+                                ctx.count("model_steps_tolerance_widened_by_measured_conditioning")
+                            else:
+                                ctx.count("model_steps_skipped_ill_conditioned_step")
+                                d = None
+                                continue
                     if d is None and not close(ll_from_model(st, ms), S["loglik"], 1.0, rtol=rtol):
                         d = f"log-likelihood after sweep {S['it']}: implementation {S['loglik']!r}, model {ll_from_model(st, ms)!r}"
                     if d is not None and near_threshold(S, ms, minv):
@@ -784,6 +798,28 @@ def check_case(ctx, drv, case, full=True):
             if a != want:
                 ctx.disagree(case, f"best-realisation bookkeeping: model {a!r}, implementation {want!r}")
     return facts
+
+
+def model_sensitivity(drv, line, S, ms):
+    """largest relative change of the model's (u, w) when the psi it starts from is moved by 2^-50 of the largest value
+    each entry ever held (the error level of a table maintained by subtraction)"""
+    f = line.split(" ")
+    # layout: F sweep <10 cfg tokens> u w psi bar rho lams perm
+    psi = dec_mat(f[14], bits2f)
+    pm = S["psimax"]
+    pert = [[x + 2.0 ** -50 * pm[d][k] for k, x in enumerate(r)] for d, r in enumerate(psi)]
+    f[14] = enc_mat(pert, f2bits)
+    ms2 = parse_state(drv.ask(" ".join(f)), bits2f)
+    if ms2 is None:
+        return None
+    worst = 0.0
+    for name in ("u", "w"):
+        scale = max([abs(x) for r in ms[name] for x in r if math.isfinite(x)] or [0.0])
+        for r1, r2 in zip(ms[name], ms2[name]):
+            for x, y in zip(r1, r2):
+                if math.isfinite(x) and math.isfinite(y) and x != y:
+                    worst = max(worst, abs(x - y) / max(abs(x), abs(y), scale * 1e-3, 1e-300))
+    return worst
 
 
 def compare_nodes(ctx, drv, st, case, S):
@@ -935,7 +971,7 @@ def exact_state_case(ctx, drv, rng):
             static = {"N": N, "K": K, "D": D, "edges": [sorted(int(i) for i in m.binary_incidence[:, [j]].nonzero()[0]) for j in range(m.E)],
                       "A": [float(x) for x in m.hye_weights]}
     except Exception as ex:  # noqa: BLE001
-        ctx.violation(case, f"step-by-step calls on a tiny hypergraph fail: {type(ex).__name__}: {ex}")
+        ctx.disagree(case, f"step-by-step calls on a tiny hypergraph with a synthetic exact state fail: {type(ex).__name__}: {ex}")
         return
     cfgt = cfg_tokens(static, q, case["min_value_par"], eps=0.0)
     cfgt[7] = "1/100000000000000000000"   # EPS exactly
@@ -1022,8 +1058,8 @@ def run(ctx):
     replay_witnesses(ctx, drv)
     if drv is not None:
         esymm_lines(ctx, drv, ctx.rng, ctx.scale(40, 400))
-    n = ctx.scale(26, 420)
-    n_exact = ctx.scale(12, 150)
+    n = ctx.scale(26, 1400)
+    n_exact = ctx.scale(12, 300)
     for j in range(n):
         case = gen(ctx.rng)
         check_case(ctx, drv, case)
